@@ -83,6 +83,9 @@ PAIRS_Q = [
     # defines: case of names and references
     ('SD', [['%define ', ['n', 2, 'd'], ' ', ['d', 2, 'x']], ['k1 $', E('d')], ['k2 ${', E('d'), '}']],
            [['%define ', SW('d'), ' ', E('x')], ['k1 $', U('d')], [S('a'), 'k2 ${', L('d'), '}']]),
+    # a name defined twice (conflicting and identical values), the later spelling in another case
+    ('SD', [['%define ', ['n', 2, 'd'], ' x'], ['%define ', E('d'), ' ', ['d', 1, 'y']], ['k1 $', E('d')]],
+           [['%define ', E('d'), ' x'], ['%define ', SW('d'), ' ', E('y')], ['k1 $', U('d')]]),
     # identifier key type is case-sensitive: only layout changes
     ('S5', [[W('k'), ' ', V('v')], 'Kc 1'], [[S('a'), E('k'), S('b'), E('v'), S('c')], '', 'Kc 1']),
     # shipped components
